@@ -9,13 +9,7 @@ from ht_c11 import over, stack_cap, stackn_cap
 
 
 def define():
-    before = len(HT._ENTRIES)
-    marks = []
-
-    def mark(fn, *a, **k):
-        n0 = len(HT._ENTRIES)
-        e = fn(*a, **k)
-        marks.append(None)
+    before = set(HT._BYNAME)
 
     # stack-only instances (second vector also on a stack backend)
     ins("Raw", False, "none", "stack", "stack", "B3D", also=("C19",))
@@ -36,6 +30,10 @@ def define():
     splice(False, "Raw", "none", "stack", "B3D", r=1, also=("C19",))
     splice(True, "Wrapper", "none", "stack", "B3D", r=1, also=("C19",))
     badrange("EndAfterLen", "Drain", "none", "stack", "B3D", also=("C19",))
+    # instances created here belong to C19 only (their home properties have their own selections)
+    for e in HT._ENTRIES:
+        if e["name"] not in before:
+            e["props"] = ["C19"]
     for e in HT._ENTRIES:
         if e["name"].startswith("c11_over_") or e["name"].startswith("c11_stackcap") or e["name"].startswith("c11_stackncap"):
             if e["tier"] == "quick" and "C19" not in e["props"]:
